@@ -7,9 +7,10 @@ sid, prop, src, caught_by, initially = sys.argv[1:6]
 needs = " ".join(sys.argv[6:])
 dst = os.path.join(ROOT, "seeded", sid)
 os.makedirs(dst, exist_ok=True)
-for f in ["patch.diff", "README.md"] + [os.path.basename(x) for x in glob.glob(os.path.join(src, "*_test.go"))]:
+for f in ["patch.diff", "README.md"] + [os.path.basename(x) for x in glob.glob(os.path.join(src, "*_test.go")) + glob.glob(os.path.join(src, "*_test.go.txt"))]:
     if os.path.exists(os.path.join(src, f)):
-        name = f if not f.endswith("_test.go") else f[:-3] + ".txt"  # keep demos out of any go build
+        name = f if not f.endswith("_test.go") else f[:-3] + ".txt"
+        name = name.replace("_test.go.txt", "_test.txt")  # keep demos out of any go build
         shutil.copy(os.path.join(src, f), os.path.join(dst, name))
 meta = {
     "id": sid, "breaks_property": prop, "needs_to_manifest": needs,
